@@ -398,6 +398,13 @@ func (c *ctxT) c19Steps(fd *ast.FuncDecl, method string) []string {
 			out = append(out, "hook:"+treat)
 		case strings.Contains(s, "UnmarshalJSON(acknowledgement"):
 			out = append(out, "decode-ack:"+treat)
+		case strings.Contains(s, "bytes.Equal(") && strings.Contains(s, ".Acknowledgement()") && strings.Contains(s, "acknowledgement"):
+			// canonical-encoding check: the decoded acknowledgement must re-marshal to the bytes that were relayed
+			t := "ignored"
+			if is, ok := st.(*ast.IfStmt); ok && strings.HasPrefix(strings.TrimSpace(c.src(is.Cond)), "!bytes.Equal(") && endsWithReturn(is.Body) && !strings.Contains(c.src(is.Body), "return nil") {
+				t = "returned"
+			}
+			out = append(out, "canonical-ack:"+t)
 		case strings.Contains(s, "UnmarshalJSON(packet.GetData()"):
 			out = append(out, "decode-data:"+treat)
 		}
